@@ -404,9 +404,71 @@ def run(ctx):
                   for m in lc.FIXED_EXPLICIT[:2] + ["RK4Solver"] + lc.SPLITTING + ["RK45CKSolver", "DOPRI45", "ImplicitMidpoint", "RadauIIA5", "RICH:RK4Solver:3", "RICH:ABAs5o6HSolver:2"]
                   for dn in ("float64", "float32") for d in (False, True) for tf in (2.0, -2.0)]
         grid.pmap(constarr_case, ccases, ctx, section="noop", horizon=600)
+        ocases = [dict(ownership=True, method=m, dtype=dn, dense=d, length=(3 if ctx.quick else 4)) for m in ("RK4Solver", "RK45CKSolver", "ABAs5o6HSolver", "ImplicitMidpoint")
+                  for dn in ("float64", "float32") for d in (False, True)]
+        grid.pmap(ownership_case, ocases, ctx, section="noop", horizon=600)
+
+
+OWN_OPS = ["int", "reset", "del", "assign", "read", "fail"]
+
+
+def ownership_case(case):
+    """'the caller's ... constants are never modified': every sequence of {integrate, reset, del system.constants, system.constants = {...}, read the constants
+    property, a failing run} up to the length bound on a system built with a caller-owned dictionary; after every operation the caller's dictionary (and the
+    array inside it) is what the caller put there, and a second system that shares it still reproduces the closed form."""
+    import itertools
+    de, I = lc._imports()
+    r = Res()
+    dtype = lc.DT[case["dtype"]]
+    name = case["method"]
+    warr = np.array([1.0, -1.0], dtype=dtype)
+
+    def f(t, y, w=None, gain=1.0, **kw):
+        w_ = w if w is not None else np.array([0.25, -0.25], dtype=y.dtype)      # (what the function does when the constant does not arrive)
+        return gain * np.array([w_[0] * y[1], w_[1] * y[0]], dtype=y.dtype)
+    for hist in itertools.product(OWN_OPS, repeat=case["length"]):
+        owned = dict(w=warr.copy(), gain=1.0)
+        snapshot = dict(w=owned["w"].copy(), gain=1.0)
+        y0 = np.array([0.0, 1.0], dtype=dtype)
+        a = de.OdeSystem(f, y0=y0.copy(), t=(dtype(0.0), dtype(1.0)), dt=dtype(0.125), rtol=dtype(1e-6), atol=dtype(1e-6), constants=owned, dense_output=bool(case["dense"]))
+        a.method = lc.by_name(name)
+        r.n += 1
+        for i, op in enumerate(hist):
+            try:
+                if op == "int":
+                    a.integrate(callback=driver.Budget(5000))
+                elif op == "reset":
+                    a.reset()
+                elif op == "del":
+                    del a.constants
+                elif op == "assign":
+                    a.constants = dict(w=np.array([2.0, -2.0], dtype=dtype), gain=0.5)
+                elif op == "read":
+                    _ = dict(a.constants)
+                elif op == "fail":
+                    st = dict(n=0)
+
+                    def cb(s_):
+                        st["n"] += 1
+                        if st["n"] == 2:
+                            raise RuntimeError("boom")
+                    try:
+                        a.integrate(callback=[cb])
+                    except de.exception_types.FailedIntegration:
+                        pass
+            except Exception as ex:
+                break           # (an operation that is refused, e.g. a run without constants the function needs, carries no claim here)
+            if set(owned.keys()) != set(snapshot.keys()) or not np.array_equal(owned["w"], snapshot["w"]) or owned["gain"] != snapshot["gain"]:
+                r.v("C13/caller-constants/%s" % name, "the caller's constants are never modified", dict(case, hist=list(hist), failing_op=i),
+                    observed=dict(keys=sorted(owned.keys()), w=np.asarray(owned.get("w", [])).tolist(), gain=owned.get("gain")), expected=dict(keys=["gain", "w"], w=snapshot["w"].tolist(), gain=1.0))
+                break
+        r.out(("ownership", name, hist))
+    return r
 
 
 def replay(case):
+    if case.get("ownership"):
+        return ownership_case({k: v for k, v in case.items() if k not in ("hist", "failing_op")})
     if "cuts" in case:
         return split_case(case)
     if "other" in case:
